@@ -21,9 +21,12 @@ from .common import (Harness, canon_loc, cn, contains_parts, in_parts, is_raised
 M = "antismash.common.secmet.locations:"
 
 
+SHAPE_PARTS = {"s": 1, "j2": 2, "j3": 3, "o": 2, "b": 2}
+
+
 def shape_vars(prefix, shape):
     """shape: 's' simple, 'j2'/'j3' ordered multi-part (exons, forward order), 'o' origin-spanning two-part"""
-    k = {"s": 1, "j2": 2, "j3": 3, "o": 2}[shape]
+    k = SHAPE_PARTS[shape]
     names = {}
     for i in range(k):
         names["%ss%d" % (prefix, i)] = "int"
@@ -32,7 +35,7 @@ def shape_vars(prefix, shape):
 
 
 def shape_parts(prefix, shape, v):
-    k = {"s": 1, "j2": 2, "j3": 3, "o": 2}[shape]
+    k = SHAPE_PARTS[shape]
     return [(v["%ss%d" % (prefix, i)], v["%se%d" % (prefix, i)]) for i in range(k)]
 
 
@@ -52,6 +55,10 @@ def shape_pre(prefix, shape, v, n=None):
         cs += [s1 == 0, e1 < s0]
         if n is not None:
             cs.append(e0 == n)
+    if shape == "b":
+        # exons straddling the origin without touching it: join{[15:18), [1:4)}
+        (s0, e0), (s1, e1) = parts
+        cs += [e1 < s0]
     return L.And(cs)
 
 
@@ -120,7 +127,7 @@ class Distance(Harness):
     pid, name = "C04", "distance"
     functions = [M + "get_distance_between_locations", M + "locations_overlap",
                  "antismash.common.secmet.record:Record.get_distance_between_locations"]
-    bound = "simple+simple, simple+origin-spanning 2-part; linear and circular with symbolic record length"
+    bound = "simple+simple, simple+origin-spanning 2-part (touching the origin or not); linear and circular with symbolic record length"
     outside = "distance between two multi-exon locations (documented on hull coordinates only)"
 
     def variants(self, tier):
@@ -130,6 +137,8 @@ class Distance(Harness):
         out.append({"a": "s", "b": "o", "circ": True})
         out.append({"a": "o", "b": "s", "circ": True})
         out.append({"a": "o", "b": "o", "circ": True})
+        out.append({"a": "s", "b": "b", "circ": True})
+        out.append({"a": "b", "b": "s", "circ": True})
         return out
 
     def vars(self, var):
